@@ -22,6 +22,21 @@ Definition res_eqb {A} (eqb : A -> A -> bool) (a b : res A) : bool :=
   | _, _ => false
   end.
 
+(* grid samples are compared as SETS (both sides sorted lexicographically): the property does not fix their order *)
+Fixpoint lex_leb (a b : list float) : bool :=
+  match a, b with
+  | [], _ => true
+  | _ :: _, [] => false
+  | x :: s, y :: t => if PrimFloat.ltb x y then true else if PrimFloat.ltb y x then false else lex_leb s t
+  end.
+Fixpoint lex_insert (x : list float) (l : list (list float)) : list (list float) :=
+  match l with
+  | [] => [x]
+  | y :: t => if lex_leb x y then x :: l else y :: lex_insert x t
+  end.
+Definition lex_sort (l : list (list float)) : list (list float) := fold_right lex_insert [] l.
+Definition res_map {A B} (f : A -> B) (r : res A) : res B := match r with Ok a => Ok (f a) | Err e => Err e end.
+
 Inductive fcase :=
 | FSphere (radius : float) (c : fv3) (xs ys zs : list float) (out : list fv3)
 | FBall (radius : float) (c : fv3) (ulo uhi : float) (xs ys zs us : list float) (out : list fv3)
@@ -45,7 +60,11 @@ Definition check_f (c : fcase) : bool :=
       (* the range handed to np.random.uniform is the one Gen.v extracted, and the draws respect it *)
       && feq (ball_u_lo Fops radius) ulo && feq (ball_u_hi Fops radius) uhi
       && forallb (fun u => PrimFloat.leb ulo u && PrimFloat.ltb u uhi) us
-  | FBox m pc p1 p2 n us out => res_eqb feqll (sample_box Fops m pc p1 p2 n us) out
+  | FBox m pc p1 p2 n us out =>
+      match m with
+      | MGrid => res_eqb feqll (res_map lex_sort (sample_box Fops m pc p1 p2 n us)) (res_map lex_sort out)
+      | _ => res_eqb feqll (sample_box Fops m pc p1 p2 n us) out
+      end
   | FPoly V E n chosen ts probs out =>
       res_eqb feq3l (sample_polyline Fops V E n chosen ts) out
       && match probs with
